@@ -144,6 +144,7 @@ func parse(propertyURL, emojiProperty string, includeGeneralCategory bool) (stri
 	}
 
 	// Open the second URL.
+	numMainProperties := len(properties)
 	if emojiProperty != "" {
 		log.Printf("Parsing %s", emojiURL)
 		res, err := http.Get(emojiURL)
@@ -170,6 +171,18 @@ func parse(propertyURL, emojiProperty string, includeGeneralCategory bool) (stri
 			from, to, property, comment, err := parseProperty(line)
 			if err != nil {
 				return "", fmt.Errorf("emojis line %d: %v", num, err)
+			}
+
+			// The table must remain sorted and free of overlaps for the binary
+			// search. Code points which already have a property from the main
+			// file keep that property (a few Extended_Pictographic code points
+			// are also ALetter; WB3c consults the grapheme table for them).
+			covered, err := coveredByMainProperty(properties[:numMainProperties], from, to)
+			if err != nil {
+				return "", fmt.Errorf("emojis line %d: %v", num, err)
+			}
+			if covered {
+				continue
 			}
 			properties = append(properties, [4]string{from, to, property, comment})
 		}
@@ -234,6 +247,26 @@ var ` + os.Args[3] + ` = [][` + strconv.Itoa(columns) + `]int{
 	buf.WriteString("}")
 
 	return buf.String(), nil
+}
+
+// coveredByMainProperty returns true if the code point range from-to lies
+// completely within one of the given property ranges. A partial overlap is an
+// error because it cannot be represented without splitting ranges.
+func coveredByMainProperty(properties [][4]string, from, to string) (bool, error) {
+	first, _ := strconv.ParseUint(from, 16, 64)
+	last, _ := strconv.ParseUint(to, 16, 64)
+	for _, prop := range properties {
+		propFirst, _ := strconv.ParseUint(prop[0], 16, 64)
+		propLast, _ := strconv.ParseUint(prop[1], 16, 64)
+		if last < propFirst || propLast < first {
+			continue
+		}
+		if propFirst <= first && last <= propLast {
+			return true, nil
+		}
+		return false, fmt.Errorf("range %s-%s partially overlaps %s-%s", from, to, prop[0], prop[1])
+	}
+	return false, nil
 }
 
 // parseProperty parses a line of the Unicode properties text file containing a
